@@ -369,7 +369,10 @@ theorem no_overflow (s : PState) (p : Int) (h : PInv s) (hmx : s.maxI ≤ 2 ^ 58
 /-- Full closed-loop claim of the property ("settles at the production interval instead of
 collapsing to the minimum or drifting to the maximum"): for a production period inside the
 configured range, from some poll on every wait stays within a factor two of the period. NOT proved
-here (see `settles_partial`); validated on the implementation and on this model by execution. -/
+here (see `settles_partial`). Executable validation (model: `settlesWithin` on random settings;
+implementation: the `loop` lines of `h_poll`) shows the waits hovering at the period with isolated
+excursions beyond a factor two as late as poll ~800 (the explore distance doubles at every isolated
+poll without progress until the next change of direction), so `N` cannot be small. -/
 def SettlesStatement : Prop :=
   ∀ (mn ini mx period phase : Int), 100 ≤ mn → mn ≤ ini → ini ≤ mx → 2 * mn ≤ period → 2 * period ≤ mx →
     0 ≤ phase → phase < period →
